@@ -1,6 +1,7 @@
 #include "hashmaster.h"
 #include <string.h>
 #include <assert.h>
+#include "../../wverif.h"
 #define CHOOSE(e, f, g) ((e & f) ^ (~e & g))
 #define MAJORITY(a, b, c) ((a & b) ^ (a & c) ^ (b & c))
 #define SIGMA0(x) (rrot(x, 2) ^ rrot(x, 13) ^ rrot(x, 22))
@@ -40,14 +41,19 @@ gethash:获取每一步的哈希值
 */
 void sha256hash::getHash(const u8_t *input)
 {
+  WV_GHOST(WV_HLOG_BLOCK(input); WV_SNAP_H(this->h, 8);)
   memset(s, 0, sizeof(s));
   memcpy(s, input, sizeof(s));
   getwdata();
   addtotal(64);
   u32_t temph[8];
   memcpy(temph, h, sizeof(h));
+  WV_GHOST(wv_rounds = 0;)
   for (u32_t i = 0; i < 64; ++i)
+  WV_LOOP(__CPROVER_assigns(i, wv_rounds, __CPROVER_object_whole(temph))
+          __CPROVER_loop_invariant(i <= 64 && wv_rounds == i) __CPROVER_decreases(64 - i))
   {
+    WV_GHOST(spec_h8 wv_pre = spec_h8_of(temph);)
     u32_t t1 = temph[7] + SIGMA1(temph[4]) + CHOOSE(temph[4], temph[5], temph[6]) + k[i] + w[i];
     u32_t t2 = SIGMA0(temph[0]) + MAJORITY(temph[0], temph[1], temph[2]);
     fflush(stdout);
@@ -59,7 +65,12 @@ void sha256hash::getHash(const u8_t *input)
     temph[2] = temph[1];
     temph[1] = temph[0];
     temph[0] = t1 + t2;
+    WV_ASSERT("[C07] SHA-256 round i is the FIPS 180-4 round function with K[i] and W[i]",
+              spec_h8_eq(temph, spec_sha256_round(wv_pre, SPEC_SHA256_K[i], this->w[i])));
+    WV_GHOST(wv_rounds++;)
   }
+  WV_ASSERT("[C07] SHA-256 runs exactly 64 rounds", wv_rounds == 64);
+  WV_GHOST(WV_SNAP_T(temph, 8);)
   for (u32_t i = 0; i < 8; ++i)
     h[i] += temph[i];
 }
